@@ -245,6 +245,10 @@ namespace pika::threads::detail {
                 // pushing the new thread into the pending queue of the
                 // specified thread_queue
                 ++added;
+#if defined(PIKA_VERIF)
+                PIKA_VERIF_POINT(122, threads::detail::get_thread_id_data(thrd),
+                    reinterpret_cast<std::uint64_t>(addfrom), reinterpret_cast<std::uint64_t>(this));
+#endif
                 schedule_thread(std::move(thrd));
             }
 
@@ -681,6 +685,9 @@ namespace pika::threads::detail {
 #else
             new (td) task_description{std::move(data)};    //-V106
 #endif
+#if defined(PIKA_VERIF)
+            PIKA_VERIF_POINT(123, td, 0, reinterpret_cast<std::uint64_t>(this));
+#endif
             new_tasks_.push(td);
             if (&ec != &throws) ec = make_success_code();
         }
@@ -776,6 +783,13 @@ namespace pika::threads::detail {
             {
                 thrd.reset(next_thrd, false);    // do not addref!
                 --work_items_count_.data_;
+#if defined(PIKA_VERIF)
+                PIKA_VERIF_POINT(121, threads::detail::get_thread_id_data(thrd),
+                    static_cast<std::uint64_t>(threads::detail::get_thread_id_data(thrd)
+                                                   ->get_state(std::memory_order_relaxed)
+                                                   .verif_raw()),
+                    reinterpret_cast<std::uint64_t>(this));
+#endif
                 return true;
             }
 #endif
@@ -785,6 +799,13 @@ namespace pika::threads::detail {
         /// Schedule the passed thread
         void schedule_thread(threads::detail::thread_id_ref_type thrd, bool other_end = false)
         {
+#if defined(PIKA_VERIF)
+            PIKA_VERIF_POINT(120, threads::detail::get_thread_id_data(thrd),
+                static_cast<std::uint64_t>(threads::detail::get_thread_id_data(thrd)
+                                               ->get_state(std::memory_order_relaxed)
+                                               .verif_raw()),
+                reinterpret_cast<std::uint64_t>(this));
+#endif
             ++work_items_count_.data_;
 #ifdef PIKA_HAVE_THREAD_QUEUE_WAITTIME
             using namespace std::chrono;
@@ -805,6 +826,11 @@ namespace pika::threads::detail {
         {
             PIKA_ASSERT(&thrd->get_queue<thread_queue>() == this);
 
+#if defined(PIKA_VERIF)
+            PIKA_VERIF_POINT(124, thrd,
+                static_cast<std::uint64_t>(thrd->get_state(std::memory_order_relaxed).verif_raw()),
+                reinterpret_cast<std::uint64_t>(this));
+#endif
 #ifdef PIKA_HAVE_THREAD_STACK_MMAP
             terminated_items_.push(thrd);
 
